@@ -392,7 +392,10 @@ def certify_points(ctx, items, shard=40):
 
 
 def check(ctx):
-    core.check_properties_file(ctx, "Properties/C09.v", THEOREMS, core.AX_REALS)
+    # coqchk on this file re-checks Interval, Flocq and Coquelicot (three theorems bound exp(-1/2), exp(-1) with `interval`): it does
+    # not finish within 40 minutes on this machine (measured in the round-4 thorough pass), so it is not part of the thorough tier
+    # (as for Properties/C19Num.v); Print Assumptions of every theorem is still compared with the allow-list on every run.
+    core.check_properties_file(ctx, "Properties/C09.v", THEOREMS, core.AX_REALS, coqchk=False)
     pblslices.run(ctx)
     np, pm, km = impl()
     cases = gen_cases(ctx)
